@@ -60,10 +60,10 @@ CHECKS = {
                 technique="bounded-exhaustive enumeration of hostile inputs (raw bytes, length prefixes, nesting, truncations, every command x extreme arguments, control messages with extreme numbers) executed on the real decoder and handler in a watched child process with a counting allocator",
                 text="Every input of four finite families is decoded by the real session codec and handled by the real ForwardHandler (metadata unset and set) on a 2 MiB stack inside a child process; per input the parent records panic, process death (abort, stack overflow, allocator refusal above 1 GiB), peak extra memory (<= 64*len + 4 MiB), wall time (3 s watchdog, 2 s slow limit), reply within 100 virtual seconds or connection close, and that a second connection's PING is still answered.",
                 note="Resource clauses are measured with fixed constants on bounded families - evidence for the explored inputs, not a proof for all lengths. Blocking pops are judged against their own timeout. Trusted: counting allocator, watchdog, Redis stand-in."),
-    "C08": dict(engine="pollmc", cat="fault_enumeration", ref="3/C08",
-                technique="deviation-bounded exhaustive enumeration of environment answers (Pending / Err / EOF / connect failure at every connect, poll_ready, start_send, poll_flush, poll_next) to the real backend connection handling with real CmdCtx tasks",
-                text="BACKEND LEVEL: the real sender stack (gen_sender_factory: CachedSender, RoundRobinSenderGroup, RecoverableBackendNode, handle_backend/handle_conn with retry, ReplyCommitHandler) runs over a scripted connection that answers every request with the id found in the request bytes; scenarios: batching {disabled, fixed, dynamic} x low flush interval {0, 1h} x 1-2 connections x pipelines of 1-3 requests (late submission) x one vanished client; every script with <= 3 (thorough 4) deviations is executed to completion; oracle: every request gets exactly one result, a successful result carries the request's own id and only if the backend received its bytes, nothing stays unanswered.",
-                note="handle_session (client-side ordering) is not exercised by this engine yet. The scripted stream ends after an error item like tokio_util's FramedRead. Trusted: scripted environment, driver time policy (1 ms / 1 s idle advances)."),
+    "C08": dict(engine="pollmc+sessmc", cat="fault_enumeration", ref="3/C08",
+                technique="deviation-bounded exhaustive enumeration of environment answers (Pending / Err / EOF / connect failure at every connect, poll_ready, start_send, poll_flush, poll_next) to the real backend connection handling with real CmdCtx tasks; plus exhaustive enumeration of request-byte splits x arrival/completion interleavings x completion kinds through the real handle_session over loopback TCP",
+                text="BACKEND LEVEL: the real sender stack (gen_sender_factory: CachedSender, RoundRobinSenderGroup, RecoverableBackendNode, handle_backend/handle_conn with retry, ReplyCommitHandler) runs over a scripted connection that answers every request with the id found in the request bytes; scenarios: batching {disabled, fixed, dynamic} x low flush interval {0, 1h} x 1-2 connections x pipelines of 1-3 requests (late submission) x one vanished client; every script with <= 3 (thorough 4) deviations is executed to completion; oracle: every request gets exactly one result, a successful result carries the request's own id and only if the backend received its bytes, nothing stays unanswered. SESSION LEVEL: the real handle_session + Session (CmdCtx and reply channel) over a loopback TcpStream with the harness as CmdCtxHandler; pipelines of 1-3 (thorough 4) requests cut into 2 chunks at every byte offset and 3 chunks at chosen offset pairs, every interleaving of chunk arrival and reply completion, every completion order x kind vector {reply, error, CmdCtx dropped}; after every event the wire holds exactly the replies of the longest answered prefix, each belonging to its own request (an error reply for a failed or dropped one).",
+                note="Session level: socket timing is not controlled (each step waits for its expected observable, deadline 20 s, then reads 2 ms more to catch early bytes). The scripted backend stream ends after an error item like tokio_util's FramedRead. Trusted: scripted environment, driver time policy (1 ms / 1 s idle advances)."),
     "C02": dict(engine="simnet", cat="model_checking", ref="3/C02",
                 technique="explicit enumeration of reachable broker states x encoding x migration limit x handshake phase; real coordinator sync onto fresh real proxies; exhaustive routing probes (start proxy x boundary slots, all 16384 slots on a sample) against the broker-designated owner",
                 text="Every distinct broker state (routing-relevant projection) reachable by operation sequences up to the depth bound on 3 hosts x 2 proxies is combined with {plain, compressed} SETCLUSTER, migration_limit {0,1} and the handshake phases A (nothing served), C (PRECHECK+PRESWITCH served, scan held), D (all served); fresh real proxies are synchronised by the real ProxyMetaRespSynchronizer until they report the broker's epoch; every live member proxy x every probe slot issues a SET following MOVED; oracle from the broker view: executed on exactly the designated master (source in A, destination in C/D), <=1 redirection (<=3 while migrating), the key is never seen by an unrelated node.",
@@ -111,11 +111,12 @@ NOT_YET = {
 ENGINES = {
     "brokermc": ("harness/src/bin/brokermc.rs", "explicit-state BFS over the real in-memory broker"),
     "quorummc": ("harness/src/bin/quorummc.rs", "explicit-state BFS over the broker failure-report API against a reference model"),
-    "enummc": ("harness/src/bin/enummc.rs", "bounded-exhaustive input enumeration against reference models"),
+    "enummc": ("harness/src/bin/enummc/main.rs", "bounded-exhaustive input enumeration against reference models"),
     "hostile": ("harness/src/bin/hostile.rs", "bounded-exhaustive hostile-input sweep in a watched child process"),
     "thrsched": ("harness/src/bin/thrsched.rs", "preemption-bounded DFS over real threads at cfg-guarded scheduling points"),
     "pollmc": ("harness/src/bin/pollmc.rs", "deviation-bounded enumeration of environment answers to a hand-polled future"),
-    "simnet": ("harness/src/bin/simnet.rs", "deviation-bounded DFS over a deterministic simulation of real proxies/coordinator/broker"),
+    "sessmc": ("harness/src/bin/sessmc.rs", "exhaustive enumeration of byte splits x arrival/completion interleavings through the real handle_session over loopback TCP"),
+    "simnet": ("harness/src/bin/simnet/main.rs", "deviation-bounded DFS over a deterministic simulation of real proxies/coordinator/broker"),
 }
 
 
